@@ -2,8 +2,9 @@
 
 Bounded exhaustive enumeration (odometer, no randomness) of histories
     layout x drop x pre-read x continuation x restart
-on a real ts-server (lib/blackbox.py); each history lives in its own database so that hundreds share one
-server start; flushes / compaction waits / kill -9 are global and therefore batched: the histories are
+on a real ts-server (lib/blackbox.py). DROP SERIES histories share one database (a measurement pair per history),
+DROP MEASUREMENT / RETENTION POLICY / DATABASE histories get a database each, so that hundreds of histories share
+one server start; flushes / compaction waits / kill -9 are global and therefore batched: the histories are
 right-aligned on the server's barrier string (see c13_model.segments) so that a foreign flush never hits a
 history whose memtable is non-empty.  Oracle: reference map with deletion (c13_model.Ref); every read shape must
 equal the reference at every checkpoint (after the acknowledged drop, after the continuation, after restart).
@@ -17,37 +18,49 @@ import c13_model as M
 
 CID = "C13"
 LEVEL = "exploration"
-RULE = ("odometer over layout {memory, flushed, flushed+late(out-of-order file), mixed, compacted} x drop {DROP SERIES with "
-        "=, !=, =~, !~, AND, OR predicates selecting none/some/all of 3 series; DROP MEASUREMENT; DROP RETENTION POLICY; DROP "
-        "DATABASE} x pre-read {no, yes} x continuation {none, rewrite/re-create+write, flush, rewrite+flush, compaction, "
-        "kill -9 right after the ack} x restart {no, kill -9 (+ second kill -9 in thorough)}; every history runs on the real "
-        "ts-server in its own database; at every checkpoint every read shape (plain, 9 tag filters, field filter, tag+field, "
-        "group by tag, group by time, count, count group by tag, count with exact hint, show series / tag keys / tag values) "
-        "plus the bystander reads are compared with the reference map; evaluations = (history, checkpoint, read shape) "
-        "comparisons; distinct_nontrivial = distinct (history, read shape) pairs of histories whose drop removed at least one "
-        "series while other series / measurements had to stay")
+RULE = ("odometer (no randomness) over layout {memory, flushed, flushed + late out-of-order file, mixed files/memtable (thorough), "
+        "compacted (thorough, second server with full compaction, two shared waits)} x drop {DROP SERIES with =, !=, =~, !~, AND, OR "
+        "predicates and without WHERE, selecting none / some / all of 3 series (8 quick, 13 thorough); DROP MEASUREMENT; DROP "
+        "RETENTION POLICY; DROP DATABASE} x pre-read {no, yes} x continuation {none, rewrite same series / re-create + write, flush, "
+        "rewrite + flush, rewrite + flush + compaction (thorough), kill -9 right after the acknowledgement} x restart {no, kill -9 (+ a "
+        "second, clean restart in thorough)}, plus one cross-database scenario; every history runs on the real ts-server; at every "
+        "checkpoint (before drop if pre-read, after drop, after rewrite, after flush, after compaction, after each restart) every read "
+        "shape (plain; host =, !=, =~, !~ for two values; region =; field filter; tag+field filter; group by tag; count group by "
+        "time(1m) with bounds; count group by tag; count; count with /*+ exact_statistic_query */; show series; show tag keys; show "
+        "tag values with key = host) on the target measurement and 4 shapes on each bystander (other measurement, other retention "
+        "policy, other database) are compared with the reference map with deletion. evaluations = (history, checkpoint, read shape) "
+        "comparisons; distinct_nontrivial = distinct (history, read shape) pairs of histories whose drop removed at least one series "
+        "while other series / measurements had to stay")
 ASSUMPTIONS = [
     "single node (ts-server), one partition, default shard duration; all timestamps in one shard group",
-    "a read that fails with a 'not found' error for a dropped database / retention policy / measurement counts as an empty answer",
-    "visibility barrier (DESIGN 1): after every write and after every restart the driver polls `select .. group by host` until every "
-    "row of the reference is returned; a time-out is a tool error; no barrier between the acknowledgement of a drop and the reads",
-    "memtable auto-flush is switched off (write-cold-duration = 1h) and compaction / out-of-order merge are switched off on the "
-    "main server so that the layout of a history is what the history says; the compaction server keeps them on",
+    "a read that fails with 'not found' / 'is being delete' for a dropped database / retention policy / measurement counts as an empty answer",
+    "SHOW TAG KEYS (answered from the catalogue schema) may keep listing tag keys of a measurement that still exists after its series were dropped",
+    "visibility barrier (DESIGN 1): after every write and after every restart the driver polls the read shapes until every row of the "
+    "reference is returned; a time-out is a tool error (or, in a history that already has a violation, the end of that history); no "
+    "barrier between the acknowledgement of a drop and the reads that follow it",
+    "memtable auto-flush is switched off (write-cold-duration = 1h) and compaction / out-of-order merge are switched off on the main "
+    "server so that the layout of a history is what the history says; the compaction server keeps them on",
+    "DROP SERIES histories share one database (measurement names per history) and are driven concurrently in batches between the global "
+    "barriers (flush, compaction wait, kill -9); the statement is about sequential histories, so the delete index of the shared database "
+    "is created by one sequential DROP SERIES before the batches start",
+    "rewrites after the drop use new timestamps (overwriting a surviving point across a flush is C09's subject)",
     "the crash part of DROP MEASUREMENT (crash images inside the drop) is explored in-process by C01, not here",
 ]
 
-CLAIMED = False
+CLAIMED = True
 MANIFEST = dict(
     level=LEVEL,
     engine="blackbox",
-    technique="bounded exhaustive enumeration of drop histories (layout x drop statement x continuation x restart) on the real "
+    technique="bounded exhaustive enumeration of drop histories (layout x drop statement x pre-read x continuation x restart) on the real "
               "server over HTTP, with a reference map with deletion as differential oracle for 21 read shapes per checkpoint",
-    text="Every history of the bounded alphabet (data in memory / flushed / out-of-order / compacted; DROP SERIES with each predicate "
+    text="Every history of the bounded alphabet (data in memory / flushed / out-of-order / mixed / compacted; DROP SERIES with each predicate "
          "operator selecting none, some or all series, DROP MEASUREMENT, DROP RETENTION POLICY, DROP DATABASE; rewrite, re-create, "
-         "flush, compaction, kill -9 + restart) is executed on a real ts-server; after the acknowledged drop, after the continuation "
-         "and after restart every read shape must equal the reference map with deletion, bystander data included.",
-    note="Trusts: the HTTP front end and JSON rendering (shared by all shapes), the reference model, single node / single shard group. "
-         "Does not cover crash points inside a drop (C01), multi-node drops, time-bounded deletes.",
+         "flush, compaction, kill -9 + restart, kill -9 right after the acknowledgement) is executed on a real ts-server; after the "
+         "acknowledged drop, after the continuation and after each restart every read shape must equal the reference map with deletion, "
+         "bystander measurements / retention policies / databases included. Exhaustive within the stated alphabet.",
+    note="Trusts: the HTTP front end and JSON rendering (shared by all shapes), the reference model, single node / single shard group, "
+         "the visibility barriers (a row that never becomes visible ends as tool error, not as a verdict). Does not cover crash points "
+         "inside a drop (C01), multi-node drops, concurrent drops, time-bounded deletes, the hourly physical purge of dropped series.",
 )
 
 POOL = 48
@@ -55,6 +68,7 @@ BEING_DELETED = __import__('re').compile(r'being delete', __import__('re').I)
 BARRIER_TIMEOUT = 60
 COMPACT_TIMEOUT = 420
 QUIET_BEFORE_KILL = 4.0
+PAD = 5000  # > duration of the longest run in seconds
 
 
 class Server(blackbox.Server):
@@ -349,7 +363,9 @@ class Driver:
                 g_mem = M.expected(r.ref, db, rp, mst, kind, params, with_ghost="mem")
                 if after_restart and g_mem != exp and got == g_mem:
                     return "dropped_series_unflushed_rows_back_after_restart"
-                if name in M.UNFILTERED and got == M.expected(r.ref, db, rp, mst, kind, params, with_ghost="all", ghost_bypass=True):
+                if name in M.UNFILTERED and (
+                        got == M.expected(r.ref, db, rp, mst, kind, params, with_ghost="all", ghost_bypass=True) or
+                        (after_restart and got == M.expected(r.ref, db, rp, mst, kind, params, with_ghost="all", ghost_bypass="flushed"))):
                     # the buried series come back through the "all series of the measurement" scan, i.e. even past
                     # a negative tag filter they do not satisfy
                     return "dropped_series_returned_by_unfiltered_scan"
@@ -418,20 +434,24 @@ class Driver:
         xa, xb = "c13xa", "c13xb"
         rows = [("m", M.skey(h), M.TS[ti], {"v": M.val(h, ti)}) for h in "abc" for ti in range(3)]
         keys = sorted("m," + ",".join("%s=%s" % kv for kv in M.skey(h)) for h in "abc")
+        # series ids start at the creation second of a database: 20 series in the first database cover the ids of
+        # the second one's 3 series as long as the two are created within 17 s of each other
+        rows_a = [("m", (("host", "h%02d" % i),), M.TS[0], {"v": float(i)}) for i in range(20)]
 
         def read(db, q, kind):
             st, js = self.srv.query(q, db=db)
             return M.normalise(kind, st, js)
-        for db in (xa, xb):
-            self.ddl(None, 'create database "%s"' % db)
-            self.write(None, db, M.DEF_RP, rows)
+        self.ddl(None, 'create database "%s"' % xa)
+        self.ddl(None, 'create database "%s"' % xb)
+        self.write(None, xa, M.DEF_RP, rows_a)
+        self.write(None, xb, M.DEF_RP, rows)
         t0 = time.time()
-        while any(read(db, "show series from m", "series") != ("ok", keys) or
-                  read(db, "select count(v) from m", "count") != ("ok", 9) for db in (xa, xb)):
+        while (read(xa, "select count(v) from m", "count") != ("ok", 20) or read(xb, "show series from m", "series") != ("ok", keys)
+               or read(xb, "select count(v) from m", "count") != ("ok", 9)):
             if time.time() - t0 > BARRIER_TIMEOUT:
                 raise blackbox.ToolError("crossdb: loaded series never visible")
             time.sleep(0.1)
-        self.ddl(None, "drop series from m where host = 'a'", db=xa)
+        self.ddl(None, "drop series from m", db=xa)
         hist = dict(srv="A", special="crossdb")
 
         def ev(kindv, key, q, exp, got):
@@ -439,8 +459,8 @@ class Driver:
             self.rep.count("reads", 1)
             self.rep.distinct("crossdb|" + key.split(" :: ")[-1])
             if got != ("ok", exp):
-                self.rep.violation(kindv, "crossdb :: " + key, "databases %s / %s hold the same 3 series; `drop series from m where "
-                                   "host = 'a'` ran on %s only\n  query on %s: %s\n  expected: %s\n  got:      %s" % (
+                self.rep.violation(kindv, "crossdb :: " + key, "database %s: 20 series, all dropped by `drop series from m`; database %s: 3 series, no drop "
+                                   "so far (series ids are per database: creation second + n, so the ranges overlap); selects ran on %s\n  query on %s: %s\n  expected: %s\n  got:      %s" % (
                                        xa, xb, xa, xb, q, json.dumps(exp), json.dumps(got[1])), hist)
         for rnd in range(20):
             for q in ("select v from m", "select v from m where host = 'b'", "select v from m where host != 'c'"):
@@ -477,11 +497,14 @@ class Driver:
             pending = None
             for r in runs:
                 for mst in (r.m, r.n):
-                    base = os.path.join(self.srv.dir, "data", "data", r.db, "*", "*", "*", "tssp", mst + "_*")
-                    n_ord = len(glob.glob(os.path.join(base, "*.tssp")))
-                    n_ooo = len(glob.glob(os.path.join(base, "out-of-order", "*.tssp")))
-                    if n_ord > 1 or n_ooo > 0:
-                        pending = (r.key, mst, n_ord, n_ooo)
+                    # one directory per (partition, retention policy, shard, measurement)
+                    for d in glob.glob(os.path.join(self.srv.dir, "data", "data", r.db, "*", "*", "*", "tssp", mst + "_*")):
+                        n_ord = len(glob.glob(os.path.join(d, "*.tssp")))
+                        n_ooo = len(glob.glob(os.path.join(d, "out-of-order", "*.tssp")))
+                        if n_ord > 1 or n_ooo > 0:
+                            pending = (r.key, d[len(self.srv.dir):], n_ord, n_ooo)
+                            break
+                    if pending:
                         break
                 if pending:
                     break
@@ -493,10 +516,14 @@ class Driver:
         raise blackbox.ToolError("compaction did not finish within %ds: %s" % (COMPACT_TIMEOUT, pending))
 
     def prepare(self):
-        """shared database; its first 64 series ids go to a padding measurement so that no series id of the shared
-        database coincides with an id in one of the small per-history databases (ids are per database)."""
+        """shared database. Series ids are per database partition and start at the Unix time (seconds) of the
+        partition's creation, so the id ranges of databases created within the same hours overlap. The first PAD ids of
+        the shared database go to a padding measurement: every id dropped in the shared database is then above
+        creation time + PAD, i.e. above every id of the small per-history databases created during the run (see the
+        crossdb scenario for the defect this keeps out of the other histories)."""
         self.ddl(None, 'create database "%s"' % M.SHARED_DB)
-        self.write(None, M.SHARED_DB, M.DEF_RP, [("pad", (("i", "p%02d" % i),), M.TS[0], {"v": 1.0}) for i in range(64)])
+        for lo in range(0, PAD, 1000):
+            self.write(None, M.SHARED_DB, M.DEF_RP, [("pad", (("i", "p%04d" % i),), M.TS[0], {"v": 1.0}) for i in range(lo, lo + 1000)])
         # one DROP SERIES before the histories start: the delete index of a partition is created by the first DROP
         # SERIES that finds something, and two concurrent first drops race there (one loses its deletions; observed,
         # see notes). Histories are sequential by the statement; their concurrency is only the harness's batching.
@@ -558,8 +585,14 @@ class Driver:
             self.pool(lambda r: self.do_drop(r), late)
         rounds = ["after_restart"] + (["after_restart2"] if self.tier == "thorough" else [])
         for label in rounds:
+            if label == "after_restart2":
+                self.srv.stop()  # second round: clean shutdown (memtables flushed on the way down) instead of kill -9
             self.srv.kill9()
             self.srv.start()
+            if disable_compaction:
+                # the switches are not persistent; a merge of out-of-order files cut by the next kill -9 is C03's subject
+                self.srv.ctrl("compen", allshards="false")
+                self.srv.ctrl("merge", allshards="false")
             self.rep.count("restarts", 1)
             checklib.log("C13 server %s restarted (%s): %d histories" % (self.srv.name, label, len(rs)))
 
